@@ -651,6 +651,29 @@ class SFmtRepeat:
 
 def str_format(I, a, b, node):
     import re as _re2
+    if isinstance(a, str) and L.is_z3(b) and z3.is_string(b) and a.count("%") == 1 and "%s" in a:
+        pre, post = a.split("%s")
+        return z3.Concat(z3.StringVal(pre), b, z3.StringVal(post)) if post else z3.Concat(z3.StringVal(pre), b)
+    if isinstance(a, str) and isinstance(b, tuple) and any(L.is_z3(x) and z3.is_string(x) for x in b):
+        # "%s.%d%s" % (name, index, ext) with a symbolic string: %s -> the string, %d -> a non-empty run of digits
+        parts = _re2.split(r"(%s|%d)", a)
+        out, it = [], iter(b)
+        for part in parts:
+            if part == "%s":
+                v = next(it)
+                out.append(z3.StringVal(v) if isinstance(v, str) else v)
+            elif part == "%d":
+                v = next(it)
+                if isinstance(v, int):
+                    out.append(z3.StringVal(str(v)))
+                else:
+                    d = z3.String(I.ctx.fresh_name("digits"))
+                    # a decimal numeral: non-empty, no path separator, no dot (kept quantifier-free: no regular expression)
+                    I.ctx.assume(z3.And(z3.Length(d) >= 1, z3.Not(z3.Contains(d, z3.StringVal("/"))), z3.Not(z3.Contains(d, z3.StringVal(".")))))
+                    out.append(d)
+            elif part:
+                out.append(z3.StringVal(part))
+        return z3.Concat(*out) if len(out) > 1 else out[0]
     if isinstance(a, str) and L.is_z3(b):
         m = _re2.fullmatch(r"([<>!=@]?)%d([BHLIQ])", a)
         if m:
